@@ -158,9 +158,9 @@ fn run_ops(w: &mut Tape, env: &EnvRef) -> RunResult {
 }
 
 fn tmp_path() -> std::path::PathBuf {
-    let dir = std::env::temp_dir().join(format!("dcmsim-{}", std::process::id()));
+    let dir = std::env::temp_dir().join("dcmsim-tmp");
     let _ = std::fs::create_dir_all(&dir);
-    dir.join("c09.dcm")
+    dir.join(format!("c09-{}.dcm", std::process::id()))
 }
 
 fn run_file(w: &mut Tape, env: &EnvRef, by_path: bool) -> RunResult {
